@@ -26,7 +26,8 @@ JudgeSolve(e) ==
        /\ Report("C15:model_satisfies_clauses", Consistent(m) /\ \A c \in cls : LitsSatisfy(m, c))
        /\ Report("C15:model_satisfies_assumptions", A \subseteq m)
        /\ Report("C15:declared_vars_queryable", e.query_ok /\ e.nvars >= n)
-  /\ e.res = "unsat" => Report("C15:unsat_only_if_none", ModelsOf(all, Max2(n, 1)) = {})
+  \* brute force up to 12 variables; beyond, "unsat" is cross-checked between the backends (pair events)
+  /\ (e.res = "unsat" /\ n <= 12) => Report("C15:unsat_only_if_none", ModelsOf(all, Max2(n, 1)) = {})
 
 Next ==
   /\ l <= Len(Rec)
@@ -36,6 +37,8 @@ Next ==
        [] e.ev = "add" -> cls' = cls \cup {ToSet(e.lits)} /\ declared' = Max2(declared, MaxVarOf({ToSet(e.lits)}))
        [] e.ev = "reserve" -> cls' = cls /\ declared' = Max2(declared, e.k)
        [] e.ev = "solve" -> JudgeSolve(e) /\ UNCHANGED <<cls, declared>>   \* variables only assumed are declared for that call only
+       [] e.ev = "pair" -> Report("C15:backends_give_same_verdict", Cardinality(ToSet(e.verdicts)) = 1 /\ ToSet(e.verdicts) \subseteq {"sat", "unsat"})
+                           /\ UNCHANGED <<cls, declared>>
        [] OTHER -> UNCHANGED <<cls, declared>>
 Spec == Init /\ [][Next]_<<l, cls, declared>>
 Consumed == TLCGet("stats").diameter - 1 = Len(Rec) \/ PrintT(<<"UNCONSUMED", TLCGet("stats").diameter, Len(Rec)>>)
